@@ -4,9 +4,10 @@
    (Not part of the main _CoqProject build: it depends on the generated file.) *)
 From Coq Require Import List NArith.
 Import ListNotations.
-From GoImap.Model Require Import Locks.
-From GoImap.Proofs Require Import LocksProofs.
-From GoImap.Gen Require Import LockGraph.
+From Coq Require Import String.
+From GoImap.Model Require Import Locks Lockset.
+From GoImap.Proofs Require Import LocksProofs LocksetProofs.
+From GoImap.Gen Require Import LockGraph ServerFieldAccess.
 
 Theorem C14_lock_order_acyclic : graph_ok lock_edges = true.
 Proof. vm_compute. reflexivity. Qed.
@@ -25,6 +26,32 @@ Theorem C14_generic : forall g cfg, graph_ok g = true -> respects g cfg -> ~ dea
 Proof. exact no_deadlock. Qed.
 Print Assumptions C14_generic.
 
+(* no data race on the fields the server structs declare under a mutex (Mailbox, User, Server,
+   MailboxTracker, SessionTracker): on the table regenerated from /repo's source every such field
+   has a common lock, held on every path to every access that can run with the in-memory backend *)
+Theorem C14_guarded_fields_lockset : lockset_ok server_guarded_accesses = true.
+Proof. vm_compute. reflexivity. Qed.
+Print Assumptions C14_guarded_fields_lockset.
+
+Theorem C14_common_lock : forall a, In a server_guarded_accesses -> a2_exempt a = false ->
+  exists cls, In cls (a2_held a) /\
+    forall b, In b server_guarded_accesses -> a2_field b = a2_field a -> a2_exempt b = false -> In cls (a2_held b).
+Proof. exact (lockset_common_lock server_guarded_accesses C14_guarded_fields_lockset). Qed.
+Print Assumptions C14_common_lock.
+
+(* two threads inside accesses guarded by the same mutex cannot both hold it *)
+Theorem C14_no_concurrent_guarded_access : forall ts i j t u,
+  mutex_ok ts -> disciplined ts -> i <> j ->
+  nth_error ts i = Some t -> nth_error ts j = Some u ->
+  at_guarded t = true -> at_guarded u = true -> False.
+Proof. exact no_concurrent_guarded_access. Qed.
+Print Assumptions C14_no_concurrent_guarded_access.
+
 (* non-vacuity: the graph is not empty, and a cyclic graph is rejected by the same check *)
-Example C14_nonvacuous : (1 <= length lock_edges)%nat /\ graph_ok [(0%N, 1%N); (1%N, 0%N)] = false /\ graph_ok [(3%N, 3%N)] = false.
+Example C14_nonvacuous : (1 <= List.length lock_edges)%nat /\ graph_ok [(0%N, 1%N); (1%N, 0%N)] = false /\ graph_ok [(3%N, 3%N)] = false.
 Proof. repeat split; vm_compute; try reflexivity. apply le_S_n. repeat constructor. Qed.
+Example C14_lockset_nonvacuous :
+  (20 <= List.length server_guarded_accesses)%nat /\
+  lockset_ok [("M.x", "f", "p", true, ["M.mutex"], false); ("M.x", "g", "q", false, [], false)]%string = false /\
+  lockset_ok [("M.x", "f", "p", true, ["M.mutex"; "U.mutex"], false); ("M.x", "g", "q", false, ["U.mutex"], false)]%string = true.
+Proof. repeat split; vm_compute; try reflexivity. do 20 apply le_n_S. apply le_0_n. Qed.
